@@ -121,6 +121,7 @@ type Client struct {
 	tomb          tomb.Tomb
 	mutex         sync.Mutex
 	finish        sync.Once
+	processing    bool
 }
 
 // New returns a new client that by default uses a fresh MemorySession.
@@ -234,6 +235,7 @@ func (c *Client) Connect(config *Config) (ConnectFuture, error) {
 	}
 
 	// start process routine
+	c.processing = true
 	c.tomb.Go(c.processor)
 
 	// wrap future
@@ -806,6 +808,12 @@ func (c *Client) send(pkt packet.Generic, async bool) error {
 func (c *Client) end(err error, possiblyClosed bool) error {
 	// close connection
 	err = c.cleanup(err, true, possiblyClosed)
+
+	// return if no goroutines have been started as connect failed early,
+	// waiting on the tomb would block forever
+	if !c.processing {
+		return err
+	}
 
 	// shutdown goroutines
 	c.tomb.Kill(nil)
